@@ -9,7 +9,7 @@ import traceback
 HOME = os.environ.get("VERIF_HOME", os.path.dirname(os.path.dirname(os.path.abspath(__file__))))
 REPO = os.environ.get("VERIF_REPO", "/repo")
 OUT = os.path.join(HOME, "out")
-EVID = os.path.join(HOME, "evidence")
+EVID = os.path.join(HOME, "evidence") if not os.environ.get("VERIF_AUDIT") else os.path.join(OUT, "audit_evidence")
 KNOWN = os.path.join(HOME, "known_findings.json")
 MAX_LINES = 25
 
